@@ -464,6 +464,119 @@ fn cursor_model(cfg: Value, template: PathBuf, work: PathBuf) -> impl Fn() + Syn
     }
 }
 
+/// C07, second harness: the scan is opened by a reader thread WHILE a writer is in flight and the
+/// flush loop rolls the memtable over; the reader walks the cursor, lets the others run, and walks
+/// it again.  Both walks must be equal (a stable snapshot) and must equal the state before or
+/// after the in-flight write as a whole.
+fn reread_model(cfg: Value, template: PathBuf, work: PathBuf) -> impl Fn() + Sync + Send + Clone + 'static {
+    move || {
+        let n = begin_execution();
+        let dir = work.join(format!("x{}", n % 4));
+        let _ = std::fs::remove_dir_all(&dir);
+        vcore::copy_dir(&template, &dir).expect("copy template");
+        skipfree::verif::set_fixed_height(1);
+        sync42::verif::set_wait_list_slots(4);
+        let kvs = match KeyValueStore::open(options(&dir, &cfg["options"])) {
+            Ok(k) => Arc::new(k),
+            Err(e) => {
+                finding("open-error", format!("{e}"));
+                return;
+            }
+        };
+        let mut initial = BTreeMap::new();
+        for (k, v) in cfg["initial"].as_object().cloned().unwrap_or_default() {
+            initial.insert(k, v.as_str().unwrap().to_string());
+        }
+        build_state(&kvs, &cfg["pre"], &mut initial);
+        let hist: Hist = Arc::new(StdMutex::new(vec![]));
+        let mut hs = vec![];
+        for (t, prog) in cfg["threads"].as_array().unwrap().iter().cloned().enumerate() {
+            let kvs = Arc::clone(&kvs);
+            let hist = Arc::clone(&hist);
+            hs.push(loom::thread::spawn(move || {
+                for op in prog.as_array().unwrap() {
+                    do_call(&kvs, t + 1, &hist, op);
+                }
+            }));
+        }
+        let walks: Arc<StdMutex<Vec<Vec<(String, String)>>>> = Arc::new(StdMutex::new(vec![]));
+        let reader = {
+            let kvs = Arc::clone(&kvs);
+            let walks = Arc::clone(&walks);
+            loom::thread::spawn(move || {
+                let ub: Bound<&[u8]> = Bound::Unbounded;
+                let mut cursor = match kvs.range_scan(&ub, &ub) {
+                    Ok(c) => c,
+                    Err(e) => {
+                        finding("op-error:range_scan", format!("{e}"));
+                        return;
+                    }
+                };
+                record(9, "scan opened");
+                for pass in 0..2 {
+                    let mut out = vec![];
+                    if let Err(e) = cursor.seek_to_first() {
+                        finding("cursor-error", format!("{e}"));
+                        return;
+                    }
+                    loop {
+                        if let Err(e) = cursor.next() {
+                            finding("cursor-error", format!("{e}"));
+                            return;
+                        }
+                        match cursor.key_value() {
+                            None => break,
+                            Some(kv) => out.push((
+                                String::from_utf8_lossy(kv.key).to_string(),
+                                String::from_utf8_lossy(kv.value.unwrap_or(b"<TOMBSTONE>")).to_string(),
+                            )),
+                        }
+                        if out.len() > 16 {
+                            finding("scan-does-not-terminate", "more than 16 entries");
+                            return;
+                        }
+                    }
+                    record(9, format!("walk {pass} -> {out:?}"));
+                    walks.lock().unwrap().push(out);
+                    if pass == 0 {
+                        loom::thread::yield_now();
+                    }
+                }
+            })
+        };
+        reader.join().unwrap();
+        for h in hs {
+            h.join().unwrap();
+        }
+        let walks = walks.lock().unwrap().clone();
+        if walks.len() == 2 {
+            if walks[0] != walks[1] {
+                finding(
+                    "cursor-reread-differs",
+                    format!("the same cursor returned {:?} and then, re-read from the start, {:?}", walks[0], walks[1]),
+                );
+            }
+            // each walk is the state before or after the whole in-flight write
+            let before: Vec<(String, String)> = initial.iter().map(|(k, v)| (k.clone(), v.clone())).collect();
+            let mut after_map = initial.clone();
+            for e in hist.lock().unwrap().iter() {
+                apply_spec(&mut after_map, &e.call);
+            }
+            let after: Vec<(String, String)> = after_map.iter().map(|(k, v)| (k.clone(), v.clone())).collect();
+            for w in walks.iter() {
+                if *w != before && *w != after {
+                    finding(
+                        "cursor-snapshot-is-neither-before-nor-after-the-write",
+                        format!("walk {w:?}; before {before:?}; after {after:?}"),
+                    );
+                }
+            }
+        }
+        outcome(&walks);
+        drop(kvs);
+    }
+}
+
 /// C20: a writer whose flush must wait for compaction; the flush thread and compaction
 /// threads run their real loops and are released by a stop request once the writer and the flush
 /// are through.  loom reports a deadlock when every thread is parked.
@@ -598,6 +711,10 @@ fn configs(prop: &str, thorough: bool) -> Vec<Value> {
                 "pre": [["put", "ab", "2"]], "initial": {"a": "3", "b": "1"},
                 "options": {"l0-mandatory-compaction-threshold-files": "1"},
                 "threads": [[["flush"]], [["compact"], ["compact"]]], "limits": lim()}));
+            // the scan is opened while a two-key batch is in flight and the memtable rolls over
+            v.push(json!({"harness": "reread", "name": "reread-batch-in-flight-vs-rollover",
+                "template": [], "pre": [["put", "x", "0"]], "initial": {},
+                "threads": [[["batch", [["a", "1"], ["b", "1"]]]], [["flush"]]], "limits": lim()}));
             v.push(json!({"harness": "cursor", "name": "cursor-vs-compaction",
                 "template": [["put", "a", "1"], ["put", "b", "1"], ["flush"], ["del", "a"], ["flush"]],
                 "initial": {"b": "1"},
@@ -657,6 +774,7 @@ fn run_child(cfg: &Value) -> Value {
         "rw" => explore(cfg, &limits, rw_model(cfg.clone(), template, work)),
         "stall" => explore(cfg, &limits, stall_model(cfg.clone(), template, work)),
         "cursor" => explore(cfg, &limits, cursor_model(cfg.clone(), template, work)),
+        "reread" => explore(cfg, &limits, reread_model(cfg.clone(), template, work)),
         h => panic!("unknown harness {h}"),
     };
     drop(scratch);
